@@ -47,6 +47,24 @@ Theorem C20_maxsat_within_quant :
 Proof. exact encode_optimal_within_quant. Qed.
 Print Assumptions C20_maxsat_within_quant.
 
+(* the clamp: ln 0 = -inf is encoded as max(-10000, w) * 10000, a soft clause of weight 10^8 *)
+Theorem C20_log_zero_is_clamped :
+  forall w, (w <= - (10000 # 1))%Q -> (- wt w)%Z = 100000000%Z.
+Proof. exact wt_clamped. Qed.
+Print Assumptions C20_log_zero_is_clamped.
+
+(* ... so an assignment using a probability-0 literal costs strictly more than every assignment
+   that uses none and has probability > e^-10000: the optimum never has probability 0 when a
+   world of positive probability satisfies the hard clauses *)
+Theorem C20_zero_probability_literal_loses :
+  forall (A B : Z -> bool) lw,
+    weights_nonpos lw ->
+    uses_clamped A 1 lw = true -> uses_clamped B 1 lw = false ->
+    (- (10000 # 1) < logprob B 1 lw)%Q ->
+    (qcost B 1 lw < qcost A 1 lw)%Z.
+Proof. exact clamped_loses. Qed.
+Print Assumptions C20_zero_probability_literal_loses.
+
 (* reported probability = product of the weights of the returned (complete) assignment *)
 Theorem C20_reported_prob :
   forall result pw a,
